@@ -110,6 +110,7 @@ PROPS = {
         "level": "proof",
         "race": True,
         "extract": ["Service"],
+        "extra_modules": ["QiVerif.Props.C16Add"],
         "rule": "random histories (8-32 operations each) of Add / Remove (live, already removed, unknown id) / remote call "
                 "/ remote terminate (own id, 0, wrong id) / subscribe (one connection per subscriber) on a real service "
                 "hosted by a real server, followed by state snapshots (invocation and OnTerminate counters per object "
